@@ -220,7 +220,13 @@ func (setup *SetupServerController) handleKeyExchange(in util.Container) (util.C
 			log.Debug.Println("ed25519 signature is valid")
 			// Store entity ltpk and name
 			entity := db.NewEntity(username, clientltpk, nil)
-			setup.database.SaveEntity(entity)
+			if err := setup.database.SaveEntity(entity); err != nil {
+				// The controller must not be told that it is paired when the pairing is not stored
+				setup.reset()
+				log.Info.Println(err)
+				out.SetByte(TagErrCode, ErrCodeUnknown.Byte()) // return error 1
+				return out, nil
+			}
 			log.Debug.Printf("Stored ltpk '%s' for entity '%s'\n", hex.EncodeToString(clientltpk), username)
 
 			ltpk := setup.device.PublicKey()
